@@ -50,6 +50,7 @@ structure Profile where
   msgs : List PMsg
   containers : List Container
   fileTypes : List InitAns   -- 256 entries, index = file-type value
+  accessors : List (String × List Nat)   -- accessor methods of *File, by name, with the file types they answer for
   profileVersion : Nat
 deriving Repr, Inhabited
 
